@@ -1,5 +1,5 @@
 SPECIFICATION Spec
-CONSTANT WithPairs = TRUE
+CONSTANT WithPairs = FALSE
 INVARIANT NominalOnNpu
 INVARIANT PairsAreCpu
 INVARIANT ForceOnlyLiftsWsym
